@@ -60,7 +60,7 @@ def nontriv(scen, obs):
 
 
 def scens(ctx, n):
-    bias = {'p_contract': 0.0, 'p_faults': 0.95, 'p_small_consts': 0.6, 'files': [1, 1, 2],
+    bias = {'p_contract': 0.0, 'p_faults': 0.95, 'p_small_consts': 0.6, 'files': [1, 1, 2], 'p_endless': 0.06,
             'fault_kinds': ['timeout', 'timeout', 'timeout', 7, -9, 1, 'broken', 'foreign', 0]}
     return [D.gen_scenario(ctx.rng, bias) for _ in range(n)]
 
@@ -79,13 +79,36 @@ def timeout_scens(ctx, n):
     return out
 
 
+def hang_then_pass(rng):
+    """one round in which an earlier candidate hangs past the timeout and a later one is the only interesting one: the
+    reduction carries on with the remaining candidates, so that later candidate must be committed"""
+    m = rng.randint(2, 5)                    # candidates of the single round, states 0 … m-1
+    star = rng.randint(1, m - 1)             # the interesting one (0-based), after at least one hanging candidate
+    hang = sorted(rng.sample(range(star), rng.randint(1, star)))
+    texts = ['x' * (m + 3)] + ['y' * (j + 1) for j in range(m)]          # content 0 is the input, j+1 the candidate of state j
+    p = {'name': 'p0', 'maxT': None, 'new': {'0': 0}, 'adv': {f'0.{j}': j + 1 for j in range(m - 1)}, 'aos': {},
+         'tr': {f'0.{j}': ['OK', j + 1, j] for j in range(m)}}
+    n = rng.choice([1, 2, m, m + 1])
+    return {'texts': texts, 'files': ['a.c'], 'disk': [0], 'passes': [p], 'groups': {'first': [], 'main': [0], 'last': []},
+            'cfg': {'cacheOn': False}, 'consts': {'MAX_TIMEOUTS': 20}, 'test': {**{str(j + 1): (0 if j == star else 1) for j in range(m)}, '0': 0},
+            'faults': {f'0.{j + 1}': 'timeout' for j in hang}, 'N': n, 'p_done': rng.choice([0.0, 1.0, 0.5]), 'wait_policy': rng.choice(['first', 'random']),
+            'mode': 'pass', 'contract': False, 'rank': list(range(m + 1)), 'fuel': 400, 'expect_disk': [star + 1]}
+
+
+def oracle_carries_on(scen, obs):
+    if 'expect_disk' in scen and obs['outcome'] == 'ok' and obs['disk'] != scen['expect_disk']:
+        return 'interesting-candidate-dropped-after-a-timeout'
+    return None
+
+
 def run(ctx):
     if ctx.replay:
-        D.replay_drv(ctx, json.load(open(ctx.replay)), [oracle, oracle_timeouts])
+        D.replay_drv(ctx, json.load(open(ctx.replay)), [oracle, oracle_timeouts, oracle_carries_on])
         return 1 if ctx.violations else 0
     ctx.lean_gate(OBLIGATIONS)
     diffs = []
-    rows = D.sweep(ctx, scens(ctx, 500 if ctx.tier == 'quick' else 8000) + timeout_scens(ctx, 60 if ctx.tier == 'quick' else 600), [oracle, oracle_timeouts], diffs, nontriv)
+    rows = D.sweep(ctx, scens(ctx, 500 if ctx.tier == 'quick' else 8000) + timeout_scens(ctx, 60 if ctx.tier == 'quick' else 600)
+                   + [hang_then_pass(ctx.rng) for _ in range(40 if ctx.tier == 'quick' else 400)], [oracle, oracle_timeouts, oracle_carries_on], diffs, nontriv)
     ctx.sample({'scenario_key': D.scen_key(rows[4][0]), 'faults': rows[4][0]['faults'], 'consts': rows[4][0]['consts'], 'observed': rows[4][2]})
 
     # real pool, real scripts: exit!=0, SIGKILL, hang past the timeout, forking, megabytes of output, bytes that are not UTF-8
